@@ -7,7 +7,7 @@ WALK_CFG = """SPECIFICATION Spec
 CONSTANTS
   Keys = {"a", "b", "c", "d"}
   Labels = {0, 1, 2}
-  Filters = {"null", "all", "lx1", "lx0", "fnx0", "nlx1", "nsa", "anx0", "anx1", "nsp1", "nsp2", "sel0", "selall"}
+  Filters = {"null", "all", "lx1", "lx0", "fnx0", "nlx1", "nsa", "anx0", "anx1", "nsp1", "nsp2", "nnpa", "nnpb", "sel0", "selall"}
 INVARIANT Done
 CHECK_DEADLOCK FALSE
 """
